@@ -90,6 +90,7 @@ type Scenario struct {
 	SizeErrAt int       `json:"size_err_at,omitempty"` // k-th terminal size query fails (pty)
 	Perturb   Perturb   `json:"perturb,omitempty"`
 	Repeat    int       `json:"repeat,omitempty"` // C16: run the scenario this many times in a row
+	Late      []Step    `json:"late,omitempty"`   // calls issued after Wait has returned
 }
 
 func (s *Scenario) CountSteps() int {
